@@ -101,9 +101,14 @@ def files_strategy(tier):
     @st.composite
     def s(draw):
         spec = draw(gen.dataset(max_inputs=2, clim=True, flavor="det", core_max=3, extra_max=1))
-        return {"spec": spec, "metric": draw(st.sampled_from(["mae", "rmse", "bias", "stderror"])),
+        case = {"spec": spec, "metric": draw(st.sampled_from(["mae", "rmse", "bias", "stderror"])),
                 "axis": draw(st.sampled_from(["no", "time", "leadtime", "location", "month", "leadtimeday"])),
                 "kind": draw(st.sampled_from(["text", "netcdf"])), "flag": draw(st.sampled_from(["-c", "-c", "-C"]))}
+        if draw(st.sampled_from([False, False, True])):
+            # -T pre-aggregation applies to the climatology series like to every other series
+            case["flag"] = "-c"
+            case["T"] = [draw(st.sampled_from([2, 7, 13, 25, 49])), draw(st.sampled_from(["leadtime", "leadtime", "time"])), draw(st.sampled_from(["mean", "sum", "max", "median"]))]
+        return case
     return s()
 
 
@@ -176,10 +181,36 @@ def check_files(case, ctx):
     os.makedirs(d)
     paths, cp = mat.write_files(spec, d, case["kind"])
     tail = ["-m", case["metric"], "-x", case["axis"], "-type", "csv"]
+    T = case.get("T")
+    if T:
+        tail += ["-T", str(T[0]), "-Tx", T[1], "-Tagg", T[2]]
+        ctx.label("files/with-T")
     r1 = drive.run(paths + [flag, cp] + tail)
     r2 = drive.run(paths + [cp] + tail)
     ctx.evals += 1
     n_in = len(spec["inputs"])
+    if T:
+        # only the equivalence with the climatology as an extra input is judged (the windowed model is C15's)
+        for r in (r1, r2):
+            if r.exc is not None:
+                ctx.fail("C14/files/exc/" + r.exc_key, case, r.tb)
+                return
+        if r1.exit not in (None, 0) or r2.exit not in (None, 0):
+            return
+        h1, rows1 = drive.parse_csv(r1.lines())
+        h2, rows2 = drive.parse_csv(r2.lines())
+        nd = len(h1) - n_in
+        if len(rows1) != len(rows2):
+            ctx.fail("C14/extra-input/rows", case, "%d rows with -c, %d with the climatology as an input" % (len(rows1), len(rows2)))
+            return
+        ctx.nt(("files-T", T, spec["times"], spec["clim"]["fcst"], [dd["fcst"] for dd in spec["inputs"]], case["metric"], case["axis"]))
+        for k, (a, b) in enumerate(zip(rows1, rows2)):
+            ga = [float(x) for x in a[nd:nd + n_in]]
+            gb = [float(x) for x in b[nd:nd + n_in]]
+            if not all(cmpx.close(x, y, 1e-5) for x, y in zip(ga, gb)):
+                ctx.fail("C14/extra-input/with-T/" + case["metric"], case, "-T %s -Tx %s -Tagg %s row %d: with -c %r, with the climatology as extra input %r" % (T[0], T[1], T[2], k, ga, gb))
+                return
+        return
     if nontrivial(spec, ds):
         ctx.nt(("files", spec["times"], spec["clim"]["fcst"], [dd["fcst"] for dd in spec["inputs"]], case["metric"], case["axis"]))
     for r in (r1, r2):
